@@ -175,3 +175,32 @@ def gen_sequence(rng, voc, nmax=4, depth=3, p_tag=0.25):
         else:
             docs.append(gen_doc(rng, voc, depth, p_tag))
     return docs
+
+
+def share_node(rng, raw, name='sh1', need=None):
+    """a copy of the document in which one node below the root is anchored and aliased once more: as the next element of the
+    same list, or under a new key of the same / the top-level mapping - ONE node object at two paths (YAML anchor / alias).
+    `need(node)` restricts the choice. Returns None when nothing fits. Node sharing is outside the Lean model (trees without
+    aliasing): the families that use this compare with the model on nothing (SKIP) and check the property on the implementation."""
+    raw = copy.deepcopy(raw)
+    cands = []
+    def walk(n, parent):
+        for c in ([c for _, c in n['m']] if 'm' in n else n.get('q', [])):
+            if 'alias' not in c and 'anchor' not in c and (need is None or need(c)):
+                cands.append((n, c))
+            walk(c, n)
+    walk(raw, None)
+    if not cands:
+        return None
+    inlist = [c for c in cands if 'q' in c[0]]
+    parent, node = rng.choice(inlist if inlist and rng.random() < 0.6 else cands)
+    node['anchor'] = name
+    al = {'alias': name}
+    if 'q' in parent and rng.random() < 0.8:
+        i = next(j for j, c in enumerate(parent['q']) if c is node)
+        parent['q'].insert(rng.randrange(i + 1, len(parent['q']) + 1), al)
+    elif 'm' in parent and rng.random() < 0.5:
+        parent['m'].append([name + '_again', al])
+    else:
+        raw['m'].append(['shared', al if rng.random() < 0.6 else {'m': [['first', al], ['n', {'s': {'l': 2}}]]}])
+    return raw
